@@ -409,6 +409,24 @@ def shape_remove(tree):
     loop = loops[0]
     key = loop.target.id
     body = loop.body
+    # what the loop runs over: every id of the registry as it is when the call starts (handler_id None), or the one id
+    it = loop.iter
+    if isinstance(it, ast.Name):
+        srcs = set()
+        for n in ast.walk(fn):
+            if isinstance(n, ast.Assign) and len(n.targets) == 1 and ast.unparse(n.targets[0]) == it.id:
+                srcs.add(ast.unparse(n.value))
+            if isinstance(n, ast.Assign) and isinstance(n.value, ast.IfExp) and len(n.targets) == 1 \
+                    and ast.unparse(n.targets[0]) == it.id:
+                srcs.discard(ast.unparse(n.value))
+                srcs |= {ast.unparse(n.value.body), ast.unparse(n.value.orelse)}
+        ok = {"list(self._core.handlers)", "list(self._core.handlers.keys())", "[handler_id]"}
+        if not (srcs <= ok and "[handler_id]" in srcs and len(srcs) == 2):
+            raise Unsupported("Logger.remove: the loop runs over %r" % (sorted(srcs),))
+    else:
+        raise Unsupported("Logger.remove: the loop runs over " + ast.unparse(it))
+    if loop.orelse:
+        raise Unsupported("Logger.remove: for/else")
     if any(isinstance(s, (ast.Try, ast.With, ast.If, ast.For, ast.While)) for s in body):
         raise Unsupported("Logger.remove: control flow inside the loop")
     idx = {}
@@ -562,7 +580,48 @@ def shape_print(tree):
             raise Unsupported("ErrorInterceptor.print: record is no longer rendered with str()")
     else:
         raise Unsupported("ErrorInterceptor.print: several inner try statements")
-    return skips, [e for e in ALL if e in swallowed], guards, per_call
+    # the statements of the try body, in order, as a program the model interprets (`Gen.printProgram`)
+    prog = []
+    for x in t.body:
+        if isinstance(x, ast.Try) or any(x is hc for hc in helper_calls):
+            prog.append("render %s" % ("true" if guards else "false"))
+            continue
+        if isinstance(x, ast.Assign) and len(x.targets) == 1 and ast.unparse(x.targets[0]) == repr_name \
+                and ast.unparse(x.value) == "str(record)":
+            prog.append("render false")
+            continue
+        if isinstance(x, ast.Expr) and isinstance(x.value, ast.Call) and not x.value.keywords:
+            f = ast.unparse(x.value.func)
+            a = x.value.args
+            if f == "sys.stderr.write" and len(a) == 1:
+                if isinstance(a[0], ast.Constant) and a[0].value == "--- End of logging error ---\n":
+                    prog.append("write .footer")
+                    continue
+                if isinstance(a[0], ast.BinOp) and isinstance(a[0].op, ast.Mod) and isinstance(a[0].left, ast.Constant):
+                    if a[0].left.value == "--- Logging error in Loguru Handler #%d ---\n" \
+                            and ast.unparse(a[0].right) == "self._handler_id":
+                        prog.append("write .header")
+                        continue
+                    if a[0].left.value == "Record was: %s\n" and isinstance(a[0].right, ast.Name) \
+                            and a[0].right.id == repr_name:
+                        prog.append("write .record")
+                        continue
+            if f == "traceback.print_exception" and len(a) == 5 and ast.unparse(a[4]) == "sys.stderr":
+                prog.append("write .traceback")
+                continue
+        raise Unsupported("ErrorInterceptor.print: statement of the try body not understood: " + ast.unparse(x)[:120])
+    # the record must have been rendered before its line is written
+    if "write .record" in prog and not any(p.startswith("render") for p in prog[:prog.index("write .record")]):
+        raise Unsupported("ErrorInterceptor.print: record line written before the record is rendered")
+    # between the stderr test and the try: nothing that can fail on account of stderr or the record (the
+    # exception triple is taken from sys.exc_info() / the argument)
+    for x in body[:-1]:
+        if x in skip:
+            continue
+        for c in calls_in(x):
+            if ast.unparse(c.func) not in ("sys.exc_info", "type"):
+                raise Unsupported("ErrorInterceptor.print: call before the try: " + ast.unparse(c)[:80])
+    return skips, [e for e in ALL if e in swallowed], guards, per_call, prog
 
 
 # ----------------------------------------------------------------------------- sinks / stop
@@ -583,6 +642,44 @@ def shape_stream(tree):
     if len(body) != 2 or len(w) != 1 or len(f) != 1:
         raise Unsupported("StreamSink.write changed: %r" % ([ast.unparse(x) for x in body],))
     return w[0] < f[0]
+
+
+def shape_sink_stop(ss_tree, fs_tree):
+    """what the `stop()` method of every sink class does -> {SinkKind: StopAct}"""
+    out = {}
+
+    def classify(cls_name, tree):
+        cls = find_class(tree, cls_name)
+        fn = find_func(cls, "stop")
+        body = strip_doc(fn.body)
+        src = [ast.unparse(x) for x in body]
+        if src == ["pass"] or not body:
+            return "noUserCode"
+        defs = init_attr_defs(cls)
+        # `for t in self.<own task set>: t.cancel()` – cancels its own tasks, no user code
+        if len(body) == 1 and isinstance(body[0], ast.For) and isinstance(body[0].target, ast.Name) \
+                and _is_self_attr_chain(body[0].iter) and not body[0].orelse \
+                and [ast.unparse(x) for x in body[0].body] == ["%s.cancel()" % body[0].target.id] \
+                and "WeakSet" in defs.get(body[0].iter.attr, ""):
+            return "noUserCode"
+        # `if self.<flag>: self._stream.stop()` with flag = callable(getattr(stream, 'stop', None))
+        if len(body) == 1 and isinstance(body[0], ast.If) and not body[0].orelse \
+                and isinstance(body[0].test, ast.Attribute) and ast.unparse(body[0].test.value) == "self" \
+                and defs.get(body[0].test.attr, "").replace('"', "'") == "callable(getattr(stream, 'stop', None))" \
+                and [ast.unparse(x) for x in body[0].body] == ["self._stream.stop()"]:
+            return "userIfCapable"
+        if src == ["self._handler.close()"]:
+            return "userAlways"
+        raise Unsupported("%s.stop changed: %r" % (cls_name, src))
+    out["stream"] = out["streamFlush"] = classify("StreamSink", ss_tree)
+    out["standard"] = classify("StandardSink", ss_tree)
+    out["coroutine"] = classify("AsyncSink", ss_tree)
+    out["callable"] = classify("CallableSink", ss_tree)
+    # the file sink's stop() closes the file and runs compression / retention: user callables may run (C08/C18 own
+    # its shape); what matters here is that it exists
+    find_func(find_class(fs_tree, "FileSink"), "stop")
+    out["file"] = "userAlways"
+    return out
 
 
 def shape_stop(tree):
@@ -707,14 +804,22 @@ def generate():
         body += lean_bool("removeUnpublishesFirst", shape_remove(lg), "`Logger.remove`: the reduced registry and min_level are published before `handler.stop()`")
         body += lean_bool("logLoopUnguarded", shape_log(lg), "`Logger._log`: plain loop over the handlers, an exception of `emit` aborts it")
         ei, _ = parse_module("_error_interceptor.py")
-        skips, sw, guards, percall = shape_print(ei)
+        skips, sw, guards, percall, prog = shape_print(ei)
         body += lean_bool("printSkipsWhenNoStderr", skips, "`ErrorInterceptor.print`: returns at once when `sys.stderr` is falsy")
         body += lean_pred("printSwallows", sw, "error kinds of a failing `sys.stderr` that `print` swallows")
         body += lean_bool("printResolvesStderrPerCall", percall, "`ErrorInterceptor.print`: `sys.stderr` is looked up at each report, nothing is remembered from an earlier one")
         body += lean_bool("printGuardsRecordStr", guards, "`ErrorInterceptor.print`: `str(record)` failure replaced by a placeholder")
+        body += "/-- the statements of the `try` body of `ErrorInterceptor.print`, in the order the code has them -/\n"
+        body += "def printProgram : List PStep := [%s]\n" % ", ".join("." + p for p in prog)
         ss, _ = parse_module("_simple_sinks.py")
         body += lean_bool("streamFlushAfterWrite", shape_stream(ss), "`StreamSink.write`: write, then flush")
         body += lean_pred("asyncScheduleSwallows", shape_async_write(ss), "error kinds raised while a coroutine sink schedules its task (`create_task`) that `AsyncSink.write` silently swallows")
+        fs, _ = parse_module("_file_sink.py")
+        table = shape_sink_stop(ss, fs)
+        body += "/-- what `stop()` of each sink class does: run no user code / the stream's `stop()` if it has one / always user code -/\n"
+        body += "def sinkStop (k : SinkKind) : StopAct :=\n  match k with\n"
+        for kind in ("callable", "stream", "streamFlush", "file", "coroutine", "standard"):
+            body += "  | .%s => .%s\n" % (kind, table[kind])
         r1, r2 = shape_task(ss)
         body += lean_bool("taskCallbackRetrieves", r1, "`AsyncSink`: a done-callback retrieves the task's exception")
         body += lean_bool("taskCallbackReraises", r2, "`AsyncSink`: with catch=False the callback re-raises it (loop exception handler)")
@@ -722,5 +827,6 @@ def generate():
         errors.append("%s: %s" % (type(e).__name__, e))
     body += "\nend Emit.Gen\n"
     return emit("EmitShape", body,
-                ["loguru/_handler.py", "loguru/_logger.py", "loguru/_error_interceptor.py", "loguru/_simple_sinks.py"],
+                ["loguru/_handler.py", "loguru/_logger.py", "loguru/_error_interceptor.py", "loguru/_simple_sinks.py",
+                 "loguru/_file_sink.py"],
                 errors)
